@@ -80,6 +80,8 @@ def shape(kind, vname=None):
         return Variant(vname, ["a", "b"])
     if kind == "unit":
         return Variant(vname, [])
+    if kind.startswith("raw:"):          # named fields written as raw identifiers: "raw:type" = { r#type: Probe }, "raw:in,b" = two fields
+        return Variant(vname, [Field(n if n in ("a", "b") else "r#" + n) for n in kind[4:].split(",")])
     raise KeyError(kind)
 
 
@@ -89,6 +91,7 @@ class Case:
     def __init__(self, key, derive, kind, attr, enum=False, note="", shared=None):
         self.key, self.derive, self.kind, self.attr, self.enum, self.note = key, derive, kind, attr, enum, note
         self.shared = shared       # enum-level attribute (without `_variant`): only a default for variants without their own
+        self.items = []            # further Rust items of the module (helper methods used by argument expressions)
 
 
 def ph_with(arg, ty, mod=None):
@@ -108,11 +111,12 @@ def is_ptr_bare_field_arg(ty, args):
 def cases(tier, seed):
     out, seen = [], set()
 
-    def add(key, derive, kind, attr, enum=False, note="", shared=None):
+    def add(key, derive, kind, attr, enum=False, note="", shared=None, items=()):
         if key in seen:
             return
         seen.add(key)
         out.append(Case(key, derive, kind, attr, enum or shared is not None, note, shared))
+        out[-1].items = list(items)
 
     rot = itertools.cycle(DISPLAY_LIKE)        # the derived trait rotates through the 8 Display-like derives
 
@@ -210,6 +214,35 @@ def cases(tier, seed):
     add("shared_dflt_bare_named_noattr_variant", "Binary", "n1", None, shared=Attr([PH("name", ty="b")]))
     add("shared_dflt_fieldtext_noattr_variant", "Display", "t1", None, shared=Attr(["sh ", PH("_0")]))                     # inert
     add("shared_dflt_mod_noattr_variant", "Display", "t1", None, shared=Attr([PH("_0", sign="+")]))                        # inert
+    # I. fields declared with RAW KEYWORD identifiers, named in a bare placeholder by their un-raw name: a field by name, transparent
+    #    (seed C05_r3_1: keywords fell back to write!)
+    add("rawkw_type_disp", "Display", "raw:type", Attr([PH("type")]))
+    add("rawkw_match_lhex", "Display", "raw:match", Attr([PH("match", ty="x")]))
+    add("rawkw_in_lexp_second_field", "Binary", "raw:a,in", Attr([PH("in", ty="e")]))
+    add("rawkw_fn_oct_variant", "Octal", "raw:fn", Attr([PH("fn", ty="o")]), enum=True)
+    add("rawkw_struct_dbg_debug", "Debug", "raw:struct", Attr([PH("struct", ty="?")]))
+    add("rawkw_loop_uhex_debug_variant", "Debug", "raw:loop,b", Attr([PH("loop", ty="X")]), enum=True)
+    add("rawkw_type_ws", "UpperExp", "raw:type", Attr([PH("type", ws=" ")]))
+    add("rawkw_type_mod_width", "Display", "raw:type", Attr([PH("type", width=3)]))                                       # inert
+    add("rawkw_type_shared_default_noattr_variant", "Display", "raw:type", None, shared=Attr([PH("type", ty="b")]))
+    # J. FIELDLESS shapes: one bare placeholder referring to its only argument is transparent whatever the shape (seed C05_r3_2: a
+    #    unit variant under an enum-level format lost the flags)
+    TAG = ["impl T {\n    /// a probe-valued method for argument expressions\n    pub fn tag(&self) -> Probe { match self { T::V => K7, _ => K7.twin() } }\n}\n"]
+    add("unit_variant_shared_bare_method_arg", "Display", "unit", None, shared=Attr([PH(None)], ["self.tag()"]), items=TAG)
+    add("unit_variant_shared_bare_alias_const", "Display", "unit", None, shared=Attr([PH("code", ty="x")], [Arg("K7.twin()", "code")]))
+    add("unit_variant_shared_bare_idx0_lexp", "Display", "unit", None, shared=Attr([PH(0, ty="e")], ["self.tag()"]), items=TAG)
+    add("unit_variant_shared_mod_alt", "Display", "unit", None, shared=Attr([PH(None, alt=True)], ["K7"]))                 # inert
+    add("unit_variant_shared_text", "Display", "unit", None, shared=Attr(["<", PH(None), ">"], ["K7"]))                   # inert
+    add("unit_variant_own_bare_const", "Display", "unit", Attr([PH(None, ty="o")], ["K7"]), enum=True)
+    add("unit_variant_own_bare_under_shared", "UpperHex", "unit", Attr([PH("q")], [Arg("K7", "q")]), shared=Attr(["shared"]))
+    # K. derive(Debug) with a bare Pointer placeholder naming a field (seed C05_r3_3: went through write! because of the deref argument)
+    add("debug_bare_ptr_fieldname", "Debug", "t1", Attr([PH("_0", ty="p")]))
+    add("debug_bare_ptr_fieldname_n", "Debug", "n1", Attr([PH("name", ty="p")]))
+    add("debug_bare_ptr_field1_of_t2", "Debug", "t2", Attr([PH("_1", ty="p")]))
+    add("debug_variant_bare_ptr_fieldname", "Debug", "t1", Attr([PH("_0", ty="p")]), enum=True)
+    add("debug_variant_bare_ptr_fieldb_of_n2", "Debug", "n2", Attr([PH("b", ty="p")]), enum=True)
+    add("debug_bare_ptr_rawkw", "Debug", "raw:type", Attr([PH("type", ty="p")]))
+    add("debug_mod_ptr_width", "Debug", "t1", Attr([PH("_0", ty="p", width=4)]))                                            # inert
     if tier == "thorough":
         # the wider product: every trait x every reference form x (no modifier | each modifier), context none;
         # a seeded sample of trait x reference x context x modifier beyond that
@@ -254,7 +287,7 @@ def build(case, with_contract=False, with_control=False):
     eff = case.attr or case.shared
     assert case.shared is None or "_variant" not in case.shared.lit.names()
     tr = transparent(td, v, eff)
-    items = []
+    items = list(case.items)
     if tr:
         trait, expr = tr
         items.append(reference_method(td, {v.name: ref_direct(trait, expr)},
